@@ -214,6 +214,7 @@ def const(pyval):
 
 
 def truthy(v):
+    if hasattr(v, 'truth'): return v.truth()
     if isinstance(v, VBool): return v.term
     if isinstance(v, VInt): return v.term != 0
     if isinstance(v, VStr): return z3.Length(v.term) > 0
@@ -448,7 +449,7 @@ class Contract:
                  loops=None, prop=None, pure=False, invariant=(), locals=None, defaults=None,
                  is_property=False, name=None, assumed=False, names=None, reads=(), ghost_out=None,
                  shared=(), rely=(), suspends=False, next_raises=(), crash_invariant=(), escape_props=None,
-                 replay=None, observe=(), note=None, decreases=None, skip_args=(), fault_policy=None, frame_on_raise=False, merge_ifs=False, shards=1, ghost_update=()):
+                 replay=None, observe=(), note=None, decreases=None, skip_args=(), fault_policy=None, frame_on_raise=False, merge_ifs=False, shards=1, ghost_update=(), eval_log_args=False):
         self.file = file; self.func = func; self.params = params; self.ret = ret
         self.name = name or func
         props = prop if prop is not None else ''
@@ -464,7 +465,7 @@ class Contract:
         self.next_raises = list(next_raises); self.crash_invariant = clauses(crash_invariant)
         self.escape_props = set(escape_props) if escape_props is not None else None
         self.replay = replay; self.observe = list(observe); self.note = note; self.decreases = decreases
-        self.skip_args = set(skip_args); self.fault_policy = fault_policy; self.frame_on_raise = frame_on_raise; self.merge_ifs = merge_ifs; self.shards = shards; self.ghost_update = list(ghost_update)
+        self.skip_args = set(skip_args); self.fault_policy = fault_policy; self.frame_on_raise = frame_on_raise; self.merge_ifs = merge_ifs; self.shards = shards; self.ghost_update = list(ghost_update); self.eval_log_args = eval_log_args
         if self.name in CONTRACTS: raise AssertionError('duplicate contract %s' % self.name)
         CONTRACTS[self.name] = self
 
